@@ -32,6 +32,11 @@ def run(ctx):
                     for cts in (0, 3600):
                         big.append({"len": n, "key": key, "pts": t3(900000 + cts), "dts": t3(900000),
                                     "pid": 256, "sid": 224})
+    # every length around the 16-bit PES_packet_length limit (65535 - 3 - header data length)
+    for n in range(65500, 65560):
+        for cts in (0, 3600):
+            big.append({"len": n, "key": (n % 2 == 0), "pts": t3(900000 + cts), "dts": t3(900000), "pid": 256 + (n % 2),
+                        "sid": 224 if n % 2 == 0 else 192})
     for f in big:
         scen.append({"sc": len(scen), "kind": "frames", "cc": (f["len"] % 16), "frames": [f, dict(f, len=185)]})
     for v in (7, 12, 0, 99):
